@@ -66,8 +66,37 @@ structure Cert where
   chain : List (Nat × Nat)
   /-- mask of the fragment's operator lookahead terminals (binary operators and BETWEEN) -/
   opsMask : Nat
+  /-- `(role, prefix operator)` pairs for which the start state of that role does NOT open the prefix
+  production (e.g. mindsdb: `NOT` directly after `expr IS` belongs to the two-token `IS NOT`) -/
+  preBan : List (Kind × Nat)
   /-- expression-start states -/
   starts : Trie Entry
+
+/-- may prefix operator `o` open the operand of a start state of role `k`? -/
+def preAllowed (C : Cert) (k : Kind) (o : Nat) : Bool :=
+  !(C.preBan.any fun b => b.1 == k && b.2 == o)
+
+/-- every prefix operator of the tree stands where the start state of that role opens it -/
+def preOK (C : Cert) : Kind → Expr → Bool
+  | _, .atom _ => true
+  | _, .paren e => preOK C .top e
+  | k, .pre o e => preAllowed C k o && preOK C (.pre o) e
+  | k, .bin o l r => preOK C k l && preOK C (.opr o) r
+  | k, .btw x y z => preOK C k x && preOK C .btw y && preOK C .band z
+
+/-- least stratum of an un-parenthesised operand in a position of role `k` (`OPM.addParens`) -/
+def kindStratum (S : Strata) : Kind → Nat
+  | .top => 0
+  | .opr o => S.bin o + 1
+  | .pre o => S.pre o
+  | .btw => 4
+  | .band => 4
+
+/-- the banned prefix positions are never used by the SQL grouping: wherever `addParens` leaves a
+prefix operator un-parenthesised, the start state opens it.  Finite, decidable. -/
+def preCompat (C : Cert) (S : Strata) (F : Fragment) : Bool :=
+  ([Kind.top, .btw, .band] ++ F.bins.map Kind.opr ++ F.pres.map Kind.pre).all fun k =>
+    F.pres.all fun o => !(Nat.ble (kindStratum S k) (S.pre o)) || preAllowed C k o
 
 /-! ### tokens and trees -/
 
@@ -256,6 +285,7 @@ def startOK (T : Tables) (P : Table) (F : Fragment) (C : Cert) (u : Nat) (ent : 
          | none => false) &&
         parenOK T C ru mask &&
         F.pres.all (fun o =>
+          !preAllowed C ent.kind o ||
           match shiftTarget ru o with
           | some s => entryWith C s (.pre o) ent.cl
           | none => false) &&
